@@ -185,7 +185,10 @@ class Tracker(CmdMixin, MboxMixin, SweepMixin, Monitor):
             if victim is not None and c != st.conn:
                 if victim.sub is not None:
                     also.add("C02")         # a subscriber is cut off by somebody else's command
-                if actor is not None and actor.bound and victim.bound and actor.app != victim.app:
+                actor_app = None
+                if actor is not None:
+                    actor_app = actor.app if actor.bound else (st.msg.get("appid") if isinstance(st.msg, dict) and st.msg.get("type") == "bind" else None)
+                if actor_app is not None and victim.bound and actor_app != victim.app:
                     also.add("C06")         # ... of another app
             self.flag({"C17"} | also, "server dropped the connection", st, {"conn": c, "how": how, "msg": st.msg})
         if f8:
